@@ -619,6 +619,11 @@ class ModuleVistor(NodeVisitor):
 
         if not isinstance(obj, model.Attribute):
             return
+
+        if obj.kind is None:
+            # The attribute was created for a "@type" field of the module docstring: 
+            # now that we see the assignment we know it is a module variable (same as in _handleClassVar).
+            obj.kind = model.DocumentableKind.VARIABLE
         
         self._setAttributeAnnotation(obj, annotation)
         
